@@ -6,9 +6,11 @@ import (
 	"os"
 	"os/exec"
 	"path/filepath"
+	"runtime"
 	"strconv"
 	"strings"
 	"sync"
+	"syscall"
 )
 
 type shardFile struct {
@@ -46,7 +48,13 @@ func (r *Run) Sharded(n int) (shard, shards int, child bool) {
 		go func() {
 			defer wg.Done()
 			out := filepath.Join(dir, fmt.Sprintf("shard-%d.json", i))
+			// A shard must not outlive this process (a supervisor may kill it while shards
+			// spin): the kernel kills the shard when the thread that started it goes away,
+			// so that thread is pinned for as long as the shard runs.
+			runtime.LockOSThread()
+			defer runtime.UnlockOSThread()
 			cmd := exec.Command(os.Args[0], os.Args[1:]...)
+			cmd.SysProcAttr = &syscall.SysProcAttr{Pdeathsig: syscall.SIGKILL}
 			cmd.Env = append(os.Environ(), "VERIF_CHILD=1", fmt.Sprintf("VERIF_SHARD=%d/%d", i, n), "VERIF_SHARD_OUT="+out)
 			tail := &tailWriter{max: 3000}
 			cmd.Stderr = tail
